@@ -979,7 +979,10 @@ def r10_halo(ctx, prog, worker, rule="C07-R10"):
              isinstance(st.targets[0], ast.Name) and
              ".section[" in norm(st.value, 400)]
     if not loads:
-        raise AnalysisError("%s: block load of the worker" % rule)
+        # the read sits in a helper: C06-R1 follows it there
+        ctx.unknown_site(rule, worker, "block load of the worker not written "
+                         "as <name> = ....section[...]", node=worker.node)
+        return
     blk = loads[0].targets[0].id
     rows = set()
     for st in loads:
